@@ -80,6 +80,8 @@ AlphaFalsy == AlphaOf([Query |-> {"s", "i", "bo", "fl", "idf", "o", "lp"}, T |->
 AlphaOps2 == AlphaOf([Query |-> {"f", "s"}])
 ArgOptsOps2 == [ f |-> {<<ArgV("a", Lit("var", "n"))>>}, g |-> {<<ArgV("r", Lit("int", 2))>>} ]
 AlphaSchedP == AlphaOf([Query |-> {"lp"}, P |-> {"o"}, A |-> {"o"}, T |-> {"s", "d"}])
+AlphaCs == AlphaOf([Query |-> {"cs", "csn", "lcs", "o", "on"}, T |-> {"csn", "s"}])
+AlphaCsM == AlphaOf([Mutation |-> {"mcs", "m3", "m1"}, T |-> {"csn", "s"}])
 OKindsRaise == {[o |-> "raise"]}
 VarValsSmall == [ v |-> {Bool(TRUE), Bool(FALSE)}, w |-> {Bool(FALSE)}, n |-> {Int(3)}, m |-> {Int(4)}, x |-> {Str("xs")}, y |-> {Int(5)} ]
 AlphaSub == AlphaOf([Subscription |-> {"ev", "evs"}, T |-> {"s", "sn"}])
@@ -132,6 +134,7 @@ BenignAt(p) ==
   LET t == p.type
       core == IF IsNN(t) THEN Tail(t) ELSE t IN
   (IF ~IsNN(t) THEN {[o |-> "null"]} ELSE {})
+  \cup (IF ~IsNN(t) /\ ~IsList(core) /\ Named(core) = "Cs" THEN {[o |-> "blank"]} ELSE {})
   \cup (IF IsList(core) THEN {[o |-> "len", n |-> 0], [o |-> "len", n |-> 1], [o |-> "len", n |-> 3]} ELSE {})
   \cup (IF ~IsList(core) /\ IsAbstract(Named(core)) THEN {[o |-> "rt", tn |-> x] : x \in Possible(Named(core))} ELSE {})
   \* falsy-but-present values: 0 / "" / false / 0.0 from a resolver, "" in a default-resolved attribute
